@@ -1603,7 +1603,12 @@ class Summaries:
                     return StrV('')
                 if rty in INT_RANGES:
                     return NumV(None, 0, rty)
-                return eng.mk_default(s, rty)
+                out_ = []
+                for (s2, v) in default_value(with_state(ctx, s), s, rty):
+                    if isinstance(v, CollV):
+                        v = v.evolve(prov=('default', ctx.fr.func if ctx.fr else None))
+                    out_.append((s2, v))
+                return out_
             return fork_opt(ctx, ctx.args[0], dflt, lambda s, p: p)
 
         @reg('std::result::Result::<T, E>::unwrap_or')
@@ -1640,7 +1645,16 @@ class Summaries:
         @regx(r'^std::option::Option::<&(mut )?T>::(cloned|copied)$')
         def _(ctx):
             rty = ctx.ret_ty
-            return fork_opt(ctx, ctx.args[0], lambda s, p: none(rty), lambda s, p: some(rty, eng.read(s, p.path) if isinstance(p, RefV) else p))
+
+            def cl(s, p):
+                if not isinstance(p, RefV):
+                    return some(rty, p)
+                v = eng.read(s, p.path)
+                if isinstance(v, CollV):
+                    # a clone of a stored collection remembers where it was taken from
+                    v = CollV(v.kind, v.ty, next(_c), 0, v.length, v.known, v.elem, prov=('clone', v.prov, spath(p.path)))
+                return some(rty, v)
+            return fork_opt(ctx, ctx.args[0], lambda s, p: none(rty), cl)
 
         @regx(r'^std::option::Option::<T>::(as_ref|as_mut|as_deref|as_deref_mut|take)$')
         def _(ctx):
